@@ -137,14 +137,20 @@ def _find_candidate_type_args(t_param: tp.TypeParameter,
     return t_args
 
 
+def _get_type(t):
+    return t.get_type() if isinstance(t, ast.ClassDeclaration) else t
+
+
 def _construct_related_types(etype: tp.ParameterizedType, types, get_subtypes,
                              ignore_variance=False):
     type_var_map = OrderedDict()
     if etype.name == 'Array':
+        # The available types may contain class declarations (this is what
+        # the generator passes); look at the types they declare.
         types = [t for t in types
-                 if not t.is_type_var() and
-                 not t.is_parameterized() and
-                 not t.is_type_constructor()
+                 if not _get_type(t).is_type_var() and
+                 not _get_type(t).is_parameterized() and
+                 not _get_type(t).is_type_constructor()
                  ]
     for i, t_param in enumerate(etype.t_constructor.type_parameters):
         if t_param.bound in type_var_map:
